@@ -39,6 +39,23 @@ class data_value_parse(_ClassParse):
     fn = nf.DataPacketValue.parse.__func__
 
 
+def relaxed_fields(cls, seen=None):
+    """declaration walk over the live class: the nested-model fields reachable from `cls` that are declared with
+    ignore_critical=True (ModelField.parse_from hands exactly that flag to the nested parser: contracts/fields2.py)"""
+    seen = seen if seen is not None else set()
+    if cls in seen:
+        return []
+    seen.add(cls)
+    out = []
+    for f in cls._encoded_fields:
+        inner = f.element_type if isinstance(f, tm.RepeatedField) else f
+        if isinstance(inner, tm.ModelField):
+            if inner.ignore_critical:
+                out.append(f'{cls.__name__}.{f.name}')
+            out += relaxed_fields(inner.model_type, seen)
+    return out
+
+
 class _ParseFn(Contract):
     props = ('C07', 'C06', 'C01')
     raises = {e: (lambda cx, wire, with_tl=True: True) for e in DOCUMENTED}
@@ -79,11 +96,17 @@ class parse_data(_ParseFn):
 class parse_interest(_ParseFn):
     fn = nf.parse_interest
     doc = ('parse_interest raises only documented decoding errors; when it accepts, the mandatory Name was present in the '
-           'packet; parameters come from the packet, pointers are views into the given wire')
+           'packet; parameters come from the packet, pointers are views into the given wire; no nested element of the '
+           'Interest format is declared with a relaxed critical-bit rule')
 
     def post(c, cx, result, wire, with_tl):
         name, params, app_param, sig = result
         return {'mandatory_name_present': isinstance(name, BufSeq),
+                # declaration lemma (ground fact of the live classes): no element of an Interest is parsed under a relaxed
+                # critical-bit rule, so with the contracts of TlvModel.parse (unrecognised critical element -> DecodeError
+                # unless ignore_critical) and ModelField.parse_from (declared flag handed down) every unrecognised,
+                # repeated or out-of-order critical element anywhere inside an accepted Interest is impossible
+                'interest_format_declares_no_relaxed_criticality': relaxed_fields(nf.InterestPacket) == [],
                 'params_object': isinstance(params, SymObj) and params.cls is nf.InterestParam,
                 'app_param_in_wire': app_param is None or (isinstance(app_param, View) and Eq(app_param.cell, wire.cell) is True)}
 
@@ -112,7 +135,9 @@ class parse_lp_packet_v2(Contract):
     fn = lp.parse_lp_packet_v2
     props = ('C10', 'C06', 'C07')
     doc = ('parse_lp_packet_v2 raises only documented decoding errors; a recognised FragIndex / FragCount (fragmented '
-           'envelope) is rejected with DecodeError; otherwise the LpPacketValue read from the wire is returned')
+           'envelope) is rejected with DecodeError; otherwise the LpPacketValue read from the wire is returned; the '
+           'envelope class declares its headers in the NDNLPv2 wire order (increasing type, Fragment last), so the generic '
+           'parser recognises every header of an envelope in that order')
     raises = {e: (lambda cx, wire, with_tl=True: True) for e in DOCUMENTED}
 
     def setup(self, cx):
@@ -127,8 +152,17 @@ class parse_lp_packet_v2(Contract):
             return {'returns_lp_packet_value': False}
         r = result
         fi, fc = r.getattr_(cx.it, 'frag_index', None), r.getattr_(cx.it, 'frag_count', None)
+        # declaration lemma (ground fact read from the live class on every run): NDNLPv2 sends the headers in increasing
+        # TLV-TYPE order and the Fragment last; with TlvModel.parse matching an element to the first field of its type at
+        # or after the current position (contracts/model.py), every recognised header of such an envelope is matched
+        # - FragIndex / FragCount in particular - only if the fields are declared in that same order
+        fs = [f for f in lp.LpPacketValue._encoded_fields if not isinstance(f, tm.ProcedureArgument)]
+        heads = [f.type_num for f in fs[:-1]]
         return {'is_lp_packet_value': r.cls is lp.LpPacketValue,
-                'fragmented_envelope_rejected': And(fi.isnone, fc.isnone)}
+                'fragmented_envelope_rejected': And(fi.isnone, fc.isnone),
+                'envelope_headers_declared_in_wire_order_fragment_last':
+                    len(fs) >= 1 and fs[-1].type_num == lp.LpTypeNumber.FRAGMENT
+                    and all(a < b for a, b in zip(heads, heads[1:]))}
 
     def result(c, cx, wire, with_tl):
         from pyvc.values import OptInt
